@@ -373,6 +373,37 @@ def check_resume_point(V: Verdicts, prop, plan, run: Run):
             V.ok("resumed_at_interruption_point")
 
 
+def check_shuffled_bound(V: Verdicts, prop, plan, run: Run):
+    """C09 (d): with state shuffling a resumed run still converges to a solution within the
+    error bound of the stopping rule (max_diff): values within epsilon of V*, policy value
+    within 2*gamma*epsilon/(1-gamma)."""
+    h = run.hist["lifetimes"][-1]
+    fin = run.finals[-1]
+    if fin is None or not h["calls"] or "it1" not in h["calls"][-1]:
+        return
+    c = h["calls"][-1]
+    kw = plan["world"]["solver"]["kw"]
+    if not c["converged"]:
+        V.bad(f"{prop}:shuffled_resume_did_not_converge", f"resumed shuffled run did not converge within {plan['Tmax']} iterations (stopped at {c['it1']})")
+        return
+    mdp = R.MDP({k: v for k, v in plan["world"]["problem"].items() if k not in ("kind", "cfg")})
+    g, eps = float(h["boot"].get("gamma", kw["gamma"])), kw["epsilon"]
+    vs = mdp.vstar(g)
+    err = float(np.max(np.abs(fin["values"] - vs)))
+    if err > eps * (1 + 1e-6) + 1e-9:
+        V.bad(f"{prop}:shuffled_resume_outside_bound", f"resumed shuffled run converged {err:.3g} away from the optimal values (epsilon {eps})")
+        return
+    pi = mdp.action_index(fin["policy"])
+    if (pi < 0).any():
+        V.bad(f"{prop}:policy_not_in_action_space", "returned policy holds vectors outside the action space")
+        return
+    gap = float(np.max(vs - mdp.exact_policy_value(pi, g)))
+    if gap > 2 * g * eps / (1 - g) * (1 + 1e-6) + 1e-9:
+        V.bad(f"{prop}:shuffled_resume_policy_bound", f"policy of the resumed shuffled run is {gap:.3g} below optimal, bound {2 * g * eps / (1 - g):.3g}")
+    else:
+        V.ok("shuffled_resume_within_bound")
+
+
 def check_directory(V: Verdicts, prop, plan, run: Run, content: bool = True):
     """C12: cadence / retention / content / config presence at quiescent points."""
     has_cfg = plan["world"]["problem"].get("cfg", True) or plan["world"]["problem"]["kind"] != "tab"
